@@ -33,6 +33,7 @@ def run(ctx):
         ctx.rng.shuffle(order)
         ctx.count("shards_with_shuffled_import_order")
     env = kit.Env(ctx, order=order)
+    kit.aliasing_probe(ctx, env.m, "C04")   # before anything else: what follows runs in a process whose program aliases and updates in place
     mon = convmon.ConvertMonitor(env, ctx)
     conv = env.conv
     watch = kit.LineWatch(ctx, kit.module_functions(conv, "conversions"))
